@@ -1904,3 +1904,213 @@ theorem processLoops_print (cfg : Cfg) (hs : CfgSane2 cfg) (hl : LoopWords cfg) 
         · exact ih2 x h
 
 end Operon.Tmpl
+
+namespace Operon.Tmpl
+open Operon.Ribosome
+
+/-! ### assembly: `translate` on a printed token list = `renderTok` -/
+
+/-- everything the string layer needs to agree with the token layer: sane character classes, the loop-variable names
+    are words, and NOTHING that can be spliced in (value, item, dict field, filter result, marker) contains `{`; dict
+    keys are words (or `.`) -/
+structure StrOK (cfg : Cfg) (ctx : Ctx) : Prop where
+  sane : CfgSane2 cfg
+  words : LoopWords cfg
+  text : ∀ n, NoLB (textOf ctx n)
+  items : CtxItemsOK cfg ctx
+  filt : ∀ f n r, cfg.applyF f n = .ok r → NoLB r
+  marker : ∀ n, NoLB n → NoLB (cfg.markerPre ++ n ++ cfg.markerSuf)
+
+/-- the registry of the string layer is the printed form of a registry of well-formed token lists -/
+structure RegOK (cfg : Cfg) (reg : Reg) : Prop where
+  printed : cfg.templates = reg.map (fun p => (p.1, printToks p.2))
+  wf : ∀ n b, lookup n reg = some b → ∀ t ∈ b, t.wfs cfg
+
+theorem lookup_map_print (n : Str) (reg : Reg) :
+    lookup n (reg.map (fun p => (p.1, printToks p.2))) = (lookup n reg).map printToks := by
+  induction reg with
+  | nil => rfl
+  | cons p reg ih =>
+    simp only [List.map_cons, lookup]
+    split
+    · rfl
+    · exact ih
+
+theorem tokC_wfs (cfg : Cfg) (ctx : Ctx) (htext : ∀ n, NoLB (textOf ctx n)) (ts : List Tok)
+    (hw : ∀ t ∈ ts, t.wfs cfg) : ∀ t ∈ ts.flatMap (tokC cfg ctx), t.wfs cfg := by
+  intro x hx
+  obtain ⟨t, ht, hxt⟩ := List.mem_flatMap.mp hx
+  cases t with
+  | opt n =>
+    simp only [tokC, lexVal_noLB cfg _ (htext n)] at hxt
+    rw [mem_valTok hxt]
+    exact htext n
+  | _ => simp [tokC] at hxt; rw [hxt]; exact hw _ ht
+
+theorem tokD_wfs (cfg : Cfg) (ctx : Ctx) (htext : ∀ n, NoLB (textOf ctx n)) (ts : List Tok)
+    (hw : ∀ t ∈ ts, t.wfs cfg) : ∀ t ∈ ts.flatMap (tokD cfg ctx), t.wfs cfg := by
+  intro x hx
+  obtain ⟨t, ht, hxt⟩ := List.mem_flatMap.mp hx
+  cases t with
+  | var n =>
+    simp only [tokD] at hxt
+    split at hxt
+    · rw [lexVal_noLB cfg _ (htext n)] at hxt
+      rw [mem_valTok hxt]
+      exact htext n
+    · simp at hxt; rw [hxt]; exact hw _ ht
+  | _ => simp [tokD] at hxt; rw [hxt]; exact hw _ ht
+
+theorem varPassTok_wfs (cfg : Cfg) (hs : CfgSane2 cfg) (ctx : Ctx) (htext : ∀ n, NoLB (textOf ctx n))
+    (hfilt : ∀ f n r, cfg.applyF f n = .ok r → NoLB r) (ts : List Tok) (hw : ∀ t ∈ ts, t.wfs cfg)
+    (out : List Tok) (w : List Str) (h : varPassTok cfg ctx ts = .ok (out, w)) : ∀ t ∈ out, t.wfs cfg := by
+  unfold varPassTok at h
+  cases hA : flatMapM (tokA cfg ctx) ts with
+  | error e => simp [hA] at h
+  | ok t4 =>
+    simp only [hA, Except.ok.injEq, Prod.mk.injEq] at h
+    have hw4 := (passFiltered_print cfg hs ctx htext hfilt ts hw).2 t4 hA
+    have hw5 := (passDefault_print cfg hs ctx htext t4 hw4).2
+    rw [← h.1]
+    exact tokD_wfs cfg ctx htext _ (tokC_wfs cfg ctx htext _ hw5)
+
+theorem renderTok_succ_eq (cfg : Cfg) (strict : Bool) (reg : Reg) (ctx : Ctx) (fuel : Nat) (ts : List Tok) :
+    renderTok cfg strict reg ctx (fuel + 1) ts =
+      (let miss := (varNames ts).filter (fun n => !isBound ctx n)
+       if strict && !miss.isEmpty then .error .value else
+       match flatMapM (incTok cfg reg (fun b => renderTok cfg strict reg ctx fuel b)) (loopPass cfg ctx (condPass ctx ts)) with
+       | .error e => .error e
+       | .ok t3 =>
+         match varPassTok cfg ctx t3 with
+         | .error e => .error e
+         | .ok (out, w) => .ok (out, miss ++ w)) := by
+  simp only [renderTok, varPassTok]
+  split
+  · rfl
+  · cases flatMapM (incTok cfg reg (fun b => renderTok cfg strict reg ctx fuel b)) (loopPass cfg ctx (condPass ctx ts)) with
+    | error e => rfl
+    | ok t3 =>
+      simp only
+      cases flatMapM (tokA cfg ctx) t3 with
+      | error e => rfl
+      | ok t4 => simp [List.append_assoc]
+
+/-- the include pass: `re.sub` over the include scanner with a recursive `translate` = `flatMapM incTok` with a
+    recursive `renderTok`, given that the two recursions agree on every registered template -/
+theorem includes_print (cfg : Cfg) (h : StrOK cfg ctx) (reg : Reg) (hreg : RegOK cfg reg)
+    (recS : Str → Res) (recT : List Tok → Except Err (List Tok × List Str))
+    (hrec : ∀ n b, lookup n reg = some b →
+      recS (printToks b) = (match recT b with | .ok (o, w) => .ok (printToks o, w) | .error e => .error e) ∧
+      ∀ o w, recT b = .ok (o, w) → ∀ t ∈ o, t.wfs cfg)
+    (ts : List Tok) (hw : ∀ t ∈ ts, t.wfs cfg) :
+    subM (incRepl cfg recS) (scanStr (matchWordTag cfg INCH) (printToks ts))
+      = (match flatMapM (incTok cfg reg recT) ts with
+         | .ok t3 => .ok (printToks t3, [])
+         | .error e => .error e) ∧
+    ∀ t3, flatMapM (incTok cfg reg recT) ts = .ok t3 → ∀ t ∈ t3, t.wfs cfg := by
+  rw [scan_print_inc cfg h.sane.toCfgSane ts (fun t ht => (hw t ht).wfp h.sane)]
+  induction ts with
+  | nil => exact ⟨rfl, by intro t3 h3; cases h3; simp⟩
+  | cons t ts ih =>
+    obtain ⟨ih1, ih2⟩ := ih (fun x hx => hw x (by simp [hx]))
+    have hwt := hw t (by simp)
+    simp only [List.flatMap_cons, subM_scanView_cons, ih1, flatMapM]
+    cases t with
+    | inc n =>
+      simp only [viewInc, incTok, incRepl, hreg.printed, lookup_map_print]
+      cases hl : lookup n reg with
+      | none =>
+        have hn : NoLB n := mem_of_word_ne h.sane.toCfgSane hwt
+        have hm := h.marker n hn
+        simp only [Option.map, markerToks, lex_noLB cfg _ hm]
+        cases hrest : flatMapM (incTok cfg reg recT) ts with
+        | error e => simp
+        | ok t3 =>
+          refine ⟨by simp [textTok, printToks]; split <;> simp_all [Tok.print], ?_⟩
+          intro t3' h3; cases h3
+          intro x hx
+          rcases List.mem_append.mp hx with h1 | h1
+          · simp only [textTok] at h1
+            split at h1
+            · simp at h1
+            · simp at h1; rw [h1]; show NoLB _; simpa using hm
+          · exact ih2 t3 hrest x h1
+      | some b =>
+        obtain ⟨hr1, hr2⟩ := hrec n b hl
+        simp only [Option.map, hr1]
+        cases hb : recT b with
+        | error e => simp
+        | ok p =>
+          obtain ⟨o, w⟩ := p
+          simp only
+          cases hrest : flatMapM (incTok cfg reg recT) ts with
+          | error e => simp
+          | ok t3 =>
+            refine ⟨by simp [printToks_append], ?_⟩
+            intro t3' h3; cases h3
+            intro x hx
+            rcases List.mem_append.mp hx with h1 | h1
+            · exact hr2 o w hb x h1
+            · exact ih2 t3 hrest x h1
+    | _ =>
+      simp only [viewInc, incTok]
+      cases hrest : flatMapM (incTok cfg reg recT) ts with
+      | error e => simp
+      | ok t3 =>
+        refine ⟨by simp [printToks_cons], ?_⟩
+        intro t3' h3; cases h3
+        intro x hx
+        rcases List.mem_cons.mp hx with h1 | h1
+        · rw [h1]; exact hwt
+        · exact ih2 t3 hrest x h1
+
+end Operon.Tmpl
+
+namespace Operon.Tmpl
+open Operon.Ribosome
+
+/-- MAIN.  On the printed form of every well-formed token list the string layer (`translate`: the model of the code's
+    four regex passes) computes exactly what the token layer (`renderTok`) computes — text, warnings and errors — for
+    every include depth; and the rendered tokens are well formed again. -/
+theorem translate_print (cfg : Cfg) (ctx : Ctx) (h : StrOK cfg ctx) (reg : Reg) (hreg : RegOK cfg reg) :
+    ∀ (fuel : Nat) (ts : List Tok), (∀ t ∈ ts, t.wfs cfg) →
+      translate cfg ctx fuel (printToks ts)
+        = (match renderTok cfg cfg.strict reg ctx fuel ts with
+           | .ok (o, w) => .ok (printToks o, w)
+           | .error e => .error e) ∧
+      ∀ o w, renderTok cfg cfg.strict reg ctx fuel ts = .ok (o, w) → ∀ t ∈ o, t.wfs cfg := by
+  intro fuel
+  induction fuel with
+  | zero => intro ts _; exact ⟨rfl, by intro o w h'; simp [renderTok] at h'⟩
+  | succ fuel ih =>
+    intro ts hw
+    have hs := h.sane
+    have hwp : ∀ t ∈ ts, t.wfp cfg := fun t ht => (hw t ht).wfp hs
+    rw [renderTok_succ_eq]
+    simp only [translate, requiredVars_print cfg hs.toCfgSane ts hwp]
+    have hw1 := condPass_wfs cfg ctx ts hw
+    obtain ⟨hL, hw2⟩ := processLoops_print cfg hs h.words ctx h.items (condPass ctx ts) hw1
+    rw [processConditionals_print cfg hs ctx ts hw, hL]
+    obtain ⟨hI, hw3⟩ := includes_print cfg h reg hreg (translate cfg ctx fuel)
+      (fun b => renderTok cfg cfg.strict reg ctx fuel b)
+      (fun n b hl => ih b (hreg.wf n b hl)) (loopPass cfg ctx (condPass ctx ts)) hw2
+    split
+    · exact ⟨rfl, by intro o w h'; cases h'⟩
+    · rw [hI]
+      cases hinc : flatMapM (incTok cfg reg (fun b => renderTok cfg cfg.strict reg ctx fuel b))
+          (loopPass cfg ctx (condPass ctx ts)) with
+      | error e => exact ⟨rfl, by intro o w h'; cases h'⟩
+      | ok t3 =>
+        have hw3' := hw3 t3 hinc
+        simp only [processVariables_print cfg hs ctx h.text h.filt t3 hw3']
+        cases hv : varPassTok cfg ctx t3 with
+        | error e => exact ⟨rfl, by intro o w h'; cases h'⟩
+        | ok p =>
+          obtain ⟨out, w⟩ := p
+          refine ⟨rfl, ?_⟩
+          intro o w' h'
+          simp only [Except.ok.injEq, Prod.mk.injEq] at h'
+          rw [← h'.1]
+          exact varPassTok_wfs cfg hs ctx h.text h.filt t3 hw3' out w hv
+
+end Operon.Tmpl
